@@ -12,8 +12,15 @@ def load(T, cfg, *, compiled=None):
     """Load definition T with configuration cfg into a fresh cstruct.  Returns (cs, type)."""
     from dissect.cstruct import cstruct
     cs = cstruct(endian=cfg["endian"], pointer=cfg.get("pointer", "uint64"))
+    compiled = cfg["compiled"] if compiled is None else compiled
+    if "inner_align" in cfg:
+        # the named types T depends on are declared by an earlier load() with its own alignment mode
+        parts = R.render_parts(T, PREAMBLE)
+        cs.load("\n".join(parts[:-1]) + "\n", compiled=compiled, align=cfg["inner_align"])
+        cs.load(parts[-1] + "\n", compiled=compiled, align=cfg["align"])
+        return cs, getattr(cs, T[1])
     text = R.render(T, PREAMBLE)
-    cs.load(text, compiled=cfg["compiled"] if compiled is None else compiled, align=cfg["align"])
+    cs.load(text, compiled=compiled, align=cfg["align"])
     return cs, getattr(cs, T[1])
 
 
